@@ -90,6 +90,7 @@ func runC20(c *kit.Ctx) {
 	r3 := c.Rule("R3", "reads and writes of an open transaction go through it", 20)
 	r4 := c.Rule("R4", "exactly one reply per request", 7)
 	r5 := c.Rule("R5", "unsubscribe before closing the database", 1)
+	r6 := c.Rule("R6", "consistent lock order", 1)
 
 	reach := handlerReachable(c)
 	if len(reach) < 15 {
@@ -98,6 +99,7 @@ func runC20(c *kit.Ctx) {
 
 	// ---- R1
 	var writerLock types.Object
+	_ = writerLock
 	lockUsers := map[types.Object][]string{}
 	for _, f := range c.P.Funcs("store") {
 		if f.Body == nil || f.Lit != nil || !reach[f] {
@@ -190,33 +192,33 @@ func runC20(c *kit.Ctx) {
 		o.OK("holds %v", uniqStrings(names))
 	}
 	{
-		o := r1.Ob(nil, nil, "single writer lock", "all transactions are serialised by the same mutex")
+		o := r1.Ob(nil, nil, "single writer lock", "all transactions are serialised by one common mutex")
+		// a lock is the writer lock if every transaction function holds it at Begin
+		nfn := map[string]bool{}
+		for _, fs := range lockUsers {
+			for _, f := range fs {
+				nfn[f] = true
+			}
+		}
+		var common []string
+		for l, fs := range lockUsers {
+			if len(uniqStrings(fs)) == len(nfn) {
+				common = append(common, l.Name())
+			}
+		}
+		sort.Strings(common)
 		switch {
 		case len(lockUsers) == 0:
 			o.Undecided("no transaction holds a lock")
-		case len(lockUsers) > 1:
+		case len(common) == 0:
 			var desc []string
 			for l, fs := range lockUsers {
-				desc = append(desc, l.Name()+": "+strings.Join(fs, ","))
+				desc = append(desc, l.Name()+": "+strings.Join(uniqStrings(fs), ","))
 			}
 			sort.Strings(desc)
-			// acceptable only if one lock is common to all
-			common := false
-			total := 0
-			for _, fs := range lockUsers {
-				if len(fs) > total {
-					total = len(fs)
-				}
-			}
-			for _, fs := range lockUsers {
-				if len(fs) == total {
-					common = true
-				}
-			}
-			_ = common
-			o.Violation("transactions are guarded by different mutexes (%s): they do not exclude each other", strings.Join(desc, "; "))
+			o.Violation("no mutex is held by every transaction (%s): they do not exclude each other", strings.Join(desc, "; "))
 		default:
-			o.OK("%s", writerLock.Name())
+			o.OK("%s held by all %d transaction functions", strings.Join(common, ","), len(nfn))
 		}
 	}
 
@@ -231,6 +233,172 @@ func runC20(c *kit.Ctx) {
 
 	// ---- R5
 	c20Shutdown(c, m, r5)
+
+	// ---- R6
+	c20LockOrder(c, r6, reach)
+}
+
+// c20LockOrder: "B acquired while A is held" edges over all handler-reachable
+// functions (callees summarised transitively); a cycle means two handlers can
+// wait for each other forever, re-acquiring a held mutex deadlocks at once.
+func c20LockOrder(c *kit.Ctx, r6 *kit.Rule, reach map[*kit.Func]bool) {
+	funcs := c.P.Funcs("store")
+	direct := map[*kit.Func]map[types.Object]string{} // lock -> strongest mode
+	for _, f := range funcs {
+		if f.Body == nil {
+			continue
+		}
+		for _, call := range f.AllCalls(false) {
+			if fld, op := lockOp(f.Info(), call); fld != nil && (op == "W" || op == "R") {
+				if direct[f] == nil {
+					direct[f] = map[types.Object]string{}
+				}
+				if direct[f][fld] != "W" {
+					direct[f][fld] = op
+				}
+			}
+		}
+	}
+	// transitive acquisitions
+	acq := map[*kit.Func]map[types.Object]string{}
+	for f, m := range direct {
+		acq[f] = map[types.Object]string{}
+		for k, v := range m {
+			acq[f][k] = v
+		}
+	}
+	for changed := true; changed; {
+		changed = false
+		for _, f := range funcs {
+			if f.Body == nil {
+				continue
+			}
+			for _, call := range f.AllCalls(true) {
+				cf := f.CalleeFunc(call)
+				if cf == nil || cf == f || cf.PkgRel() != "store" {
+					continue
+				}
+				for l, mode := range acq[cf] {
+					if acq[f] == nil {
+						acq[f] = map[types.Object]string{}
+					}
+					if cur, ok := acq[f][l]; !ok || (cur == "R" && mode == "W") {
+						acq[f][l] = mode
+						changed = true
+					}
+				}
+			}
+		}
+	}
+	type edge struct{ a, b types.Object }
+	edges := map[edge]string{}
+	reentry := ""
+	locks := map[types.Object]bool{}
+	for _, f := range funcs {
+		if f.Body == nil || !reach[f] || len(acq[f]) == 0 {
+			continue
+		}
+		info := f.Info()
+		objs := map[string]types.Object{}
+		st := &kit.Std{F: f}
+		held := func(s kit.S) map[types.Object]string {
+			h := map[types.Object]string{}
+			for _, k := range s.Keys() {
+				if strings.HasPrefix(k, "L:") {
+					h[objs[k]] = s.Get(k)
+				}
+			}
+			return h
+		}
+		st.OnCall = func(call *ast.CallExpr, n ast.Node, s kit.S) []kit.S {
+			if fld, op := lockOp(info, call); fld != nil {
+				k := "L:" + kit.VarID(fld)
+				objs[k] = fld
+				locks[fld] = true
+				switch op {
+				case "W", "R":
+					for h, hm := range held(s) {
+						if h == fld {
+							if hm == "W" || op == "W" {
+								reentry = f.Name + " acquires " + fld.Name() + " at " + f.At(call) + " while already holding it"
+							}
+							continue
+						}
+						if _, ok := edges[edge{h, fld}]; !ok {
+							edges[edge{h, fld}] = f.Name + " at " + f.At(call)
+						}
+					}
+					return []kit.S{s.Set(k, op)}
+				case "U":
+					return []kit.S{s.Del(k)}
+				}
+				return nil
+			}
+			if cf := f.CalleeFunc(call); cf != nil && cf != f && cf.PkgRel() == "store" {
+				for l, mode := range acq[cf] {
+					for h, hm := range held(s) {
+						if h == l {
+							if hm == "W" || mode == "W" {
+								reentry = f.Name + " calls " + cf.Name + " at " + f.At(call) + ", which acquires " + l.Name() + ", while already holding it"
+							}
+							continue
+						}
+						if _, ok := edges[edge{h, l}]; !ok {
+							edges[edge{h, l}] = f.Name + " calls " + cf.Name + " at " + f.At(call)
+						}
+					}
+				}
+			}
+			return nil
+		}
+		res := c.P.Graph(f).Run(kit.NewS(), st.Client())
+		if res.Overflow {
+			c.Fatalf("R6 overflow in %s", f.Name)
+		}
+		c.Analysed(f)
+	}
+	o := r6.Ob(nil, nil, "lock order", "the acquired-while-holding relation over the store's mutexes is acyclic and no held mutex is re-acquired")
+	if reentry != "" {
+		o.Violation("%s: self-deadlock", reentry)
+		return
+	}
+	// cycle detection
+	adj := map[types.Object][]types.Object{}
+	for e := range edges {
+		adj[e.a] = append(adj[e.a], e.b)
+	}
+	var cyc []string
+	var visit func(start, cur types.Object, path []types.Object, seen map[types.Object]bool)
+	visit = func(start, cur types.Object, path []types.Object, seen map[types.Object]bool) {
+		for _, nx := range adj[cur] {
+			if nx == start && len(cyc) == 0 {
+				full := append(path, nx)
+				for i := 0; i+1 < len(full); i++ {
+					cyc = append(cyc, full[i].Name()+" -> "+full[i+1].Name()+" ("+edges[edge{full[i], full[i+1]}]+")")
+				}
+				return
+			}
+			if !seen[nx] {
+				seen[nx] = true
+				visit(start, nx, append(path, nx), seen)
+			}
+		}
+	}
+	for l := range locks {
+		if len(cyc) == 0 {
+			visit(l, l, []types.Object{l}, map[types.Object]bool{l: true})
+		}
+	}
+	if len(cyc) > 0 {
+		o.Violation("lock-order inversion: %s — two requests taking the locks in opposite order wait for each other forever and every later request queues behind them", strings.Join(cyc, "; "))
+		return
+	}
+	var desc []string
+	for e, where := range edges {
+		desc = append(desc, e.a.Name()+" -> "+e.b.Name()+" ("+where+")")
+	}
+	sort.Strings(desc)
+	o.OK("%d mutexes, order edges: %s", len(locks), strings.Join(desc, "; "))
 }
 
 func c20RootID(c *kit.Ctx, m *storeModel, r2 *kit.Rule, reach map[*kit.Func]bool) {
